@@ -91,6 +91,17 @@ Record task := mkTk {
   tk_lastset : option N       (* driver side: the set named by the last Wait code *)
 }.
 
+(** Driver-level observations.  Each is recorded in [w_trace] and, in the same step, written to
+    the host log in rtmock's token format ([emit]), so [w_trace] is the structured form of the
+    driver's part of the log. *)
+Inductive tev :=
+| VPreStart (t : N) | VBoxNew (t : N) | VBoxFree (t : N)
+| VStart (t code : N) | VCb (t e0 e1 e2 code : N) | VBon (t : N)
+| VSpawn (b : N) | VFin (b : N) | VEnd (b : N) (finished : bool) | VReturn (b : N)
+| VOpDone (k : N) | VCall (k p : N) | VLift (k : N)
+| VFwait (j b : N) | VWflag (j : N) | VXwake (j : N)
+| VCtxGet (t : N) (null : bool) | VCtxSet (t : N) (null : bool) | VCtxObs (t : N) (null : bool).
+
 Record world := mkW {
   w_host : host;
   w_tasks : list (N * task);
@@ -101,7 +112,9 @@ Record world := mkW {
   w_cur : option N;
   w_script : list action;
   w_deadlocks : N;
-  w_err : option (N * list hostcall)
+  w_err : option (N * list hostcall);
+  w_created : list N;                     (* body ids whose future has been created *)
+  w_trace : list tev                      (* the driver-level observations, newest first *)
 }.
 
 (** Runtime panics (class numbers; the log is frozen at the first one). *)
@@ -140,16 +153,18 @@ Definition T_XWAKE := 114.
 Definition T_PRESTART := 115.
 
 (** ** Updates *)
-Definition set_host h w := mkW h (w_tasks w) (w_ops w) (w_flags w) (w_waiters w) (w_spawned w) (w_cur w) (w_script w) (w_deadlocks w) (w_err w).
-Definition set_tasks x w := mkW (w_host w) x (w_ops w) (w_flags w) (w_waiters w) (w_spawned w) (w_cur w) (w_script w) (w_deadlocks w) (w_err w).
-Definition set_ops x w := mkW (w_host w) (w_tasks w) x (w_flags w) (w_waiters w) (w_spawned w) (w_cur w) (w_script w) (w_deadlocks w) (w_err w).
-Definition set_flags x w := mkW (w_host w) (w_tasks w) (w_ops w) x (w_waiters w) (w_spawned w) (w_cur w) (w_script w) (w_deadlocks w) (w_err w).
-Definition set_waiters x w := mkW (w_host w) (w_tasks w) (w_ops w) (w_flags w) x (w_spawned w) (w_cur w) (w_script w) (w_deadlocks w) (w_err w).
-Definition set_spawned x w := mkW (w_host w) (w_tasks w) (w_ops w) (w_flags w) (w_waiters w) x (w_cur w) (w_script w) (w_deadlocks w) (w_err w).
-Definition set_cur x w := mkW (w_host w) (w_tasks w) (w_ops w) (w_flags w) (w_waiters w) (w_spawned w) x (w_script w) (w_deadlocks w) (w_err w).
-Definition set_script x w := mkW (w_host w) (w_tasks w) (w_ops w) (w_flags w) (w_waiters w) (w_spawned w) (w_cur w) x (w_deadlocks w) (w_err w).
-Definition set_deadlocks x w := mkW (w_host w) (w_tasks w) (w_ops w) (w_flags w) (w_waiters w) (w_spawned w) (w_cur w) (w_script w) x (w_err w).
-Definition set_err x w := mkW (w_host w) (w_tasks w) (w_ops w) (w_flags w) (w_waiters w) (w_spawned w) (w_cur w) (w_script w) (w_deadlocks w) x.
+Definition set_host x w := mkW x (w_tasks w) (w_ops w) (w_flags w) (w_waiters w) (w_spawned w) (w_cur w) (w_script w) (w_deadlocks w) (w_err w) (w_created w) (w_trace w).
+Definition set_tasks x w := mkW (w_host w) x (w_ops w) (w_flags w) (w_waiters w) (w_spawned w) (w_cur w) (w_script w) (w_deadlocks w) (w_err w) (w_created w) (w_trace w).
+Definition set_ops x w := mkW (w_host w) (w_tasks w) x (w_flags w) (w_waiters w) (w_spawned w) (w_cur w) (w_script w) (w_deadlocks w) (w_err w) (w_created w) (w_trace w).
+Definition set_flags x w := mkW (w_host w) (w_tasks w) (w_ops w) x (w_waiters w) (w_spawned w) (w_cur w) (w_script w) (w_deadlocks w) (w_err w) (w_created w) (w_trace w).
+Definition set_waiters x w := mkW (w_host w) (w_tasks w) (w_ops w) (w_flags w) x (w_spawned w) (w_cur w) (w_script w) (w_deadlocks w) (w_err w) (w_created w) (w_trace w).
+Definition set_spawned x w := mkW (w_host w) (w_tasks w) (w_ops w) (w_flags w) (w_waiters w) x (w_cur w) (w_script w) (w_deadlocks w) (w_err w) (w_created w) (w_trace w).
+Definition set_cur x w := mkW (w_host w) (w_tasks w) (w_ops w) (w_flags w) (w_waiters w) (w_spawned w) x (w_script w) (w_deadlocks w) (w_err w) (w_created w) (w_trace w).
+Definition set_script x w := mkW (w_host w) (w_tasks w) (w_ops w) (w_flags w) (w_waiters w) (w_spawned w) (w_cur w) x (w_deadlocks w) (w_err w) (w_created w) (w_trace w).
+Definition set_deadlocks x w := mkW (w_host w) (w_tasks w) (w_ops w) (w_flags w) (w_waiters w) (w_spawned w) (w_cur w) (w_script w) x (w_err w) (w_created w) (w_trace w).
+Definition set_err x w := mkW (w_host w) (w_tasks w) (w_ops w) (w_flags w) (w_waiters w) (w_spawned w) (w_cur w) (w_script w) (w_deadlocks w) x (w_created w) (w_trace w).
+Definition set_created x w := mkW (w_host w) (w_tasks w) (w_ops w) (w_flags w) (w_waiters w) (w_spawned w) (w_cur w) (w_script w) (w_deadlocks w) (w_err w) x (w_trace w).
+Definition set_trace x w := mkW (w_host w) (w_tasks w) (w_ops w) (w_flags w) (w_waiters w) (w_spawned w) (w_cur w) (w_script w) (w_deadlocks w) (w_err w) (w_created w) x.
 
 Definition fail (e : N) (w : world) : world :=
   match w_err w with Some _ => w | None => set_err (Some (e, hlog (w_host w))) w end.
@@ -158,7 +173,29 @@ Definition failed (w : world) : bool := match w_err w with Some _ => true | None
 Definition hostf (f : host -> host) (w : world) : world := set_host (f (w_host w)) w.
 Definition hostr {A} (f : host -> host * A) (w : world) : world * A :=
   let (h, a) := f (w_host w) in (set_host h w, a).
-Definition note (tag : N) (args : list N) (w : world) : world := hostf (h_note tag args) w.
+Definition ev_call (x : tev) : hostcall :=
+  match x with
+  | VPreStart t => HNote T_PRESTART [t]
+  | VBoxNew t => HNote T_TNEW [t]
+  | VBoxFree t => HNote T_TFREE [t]
+  | VStart t c => HNote T_START [t; c]
+  | VCb t e0 e1 e2 c => HNote T_CB [t; e0; e1; e2; c]
+  | VBon t => HNote T_BON [t]
+  | VSpawn b => HNote T_SPAWN [b]
+  | VFin b => HNote T_BFIN [b]
+  | VEnd b _ => HNote T_BDROP [b]
+  | VReturn b => HNote T_TRETURN [b]
+  | VOpDone k => HNote T_OPDONE [k]
+  | VCall k p => HNote T_CALL [k; p]
+  | VLift k => HNote T_LIFT [k]
+  | VFwait j b => HNote T_FWAIT [j; b]
+  | VWflag j => HNote T_WFLAG [j]
+  | VXwake j => HNote T_XWAKE [j]
+  | VCtxGet t n | VCtxObs t n => HCtxGet t n
+  | VCtxSet t n => HCtxSet t n
+  end.
+Definition emit (x : tev) (w : world) : world :=
+  set_trace (x :: w_trace w) (hostf (h_emit (ev_call x)) w).
 
 Definition tk_with_alive x k := mkTk x (tk_shared k) (tk_exited k) (tk_sleep k) (tk_waitables k) (tk_set k) (tk_itw_w k) (tk_itw_r k) (tk_reading k) (tk_root k) (tk_fu k) (tk_orphans k) (tk_lastset k).
 Definition tk_with_shared x k := mkTk (tk_alive k) x (tk_exited k) (tk_sleep k) (tk_waitables k) (tk_set k) (tk_itw_w k) (tk_itw_r k) (tk_reading k) (tk_root k) (tk_fu k) (tk_orphans k) (tk_lastset k).
@@ -186,7 +223,13 @@ Definition task0 := mkTk false false false 0 [] None None None false None fu_dea
 
 Definition get_task (t : N) (w : world) : task :=
   match alookup t (w_tasks w) with Some x => x | None => task0 end.
-Definition put_task (t : N) (x : task) (w : world) : world := set_tasks (aset t x (w_tasks w)) w.
+(** In-place update of the first binding of [t] (appended if absent). *)
+Fixpoint tset (t : N) (x : task) (l : list (N * task)) : list (N * task) :=
+  match l with
+  | [] => [(t, x)]
+  | (t', y) :: r => if N.eqb t t' then (t', x) :: r else (t', y) :: tset t x r
+  end.
+Definition put_task (t : N) (x : task) (w : world) : world := set_tasks (tset t x (w_tasks w)) w.
 Definition upd_task (t : N) (f : task -> task) (w : world) : world := put_task t (f (get_task t w)) w.
 Definition put_fu (t : N) (f : fu) (w : world) : world := upd_task t (tk_with_fu f) w.
 Definition get_fu (t : N) (w : world) : fu := tk_fu (get_task t w).
@@ -273,7 +316,7 @@ Definition signal_flag (e : env) (j : N) (w : world) : world :=
 
 Definition flag_poll (j b : N) (wr : wref) (w : world) : world * bool :=
   if nmem j (w_flags w) then (w, true)
-  else let w := note T_FWAIT [j; b] w in
+  else let w := emit (VFwait j b) w in
        (set_waiters (remove_waiter j b (w_waiters w) ++ [(j, (b, wr))]) w, false).
 
 (** ** Registration with the task ([add_waitable], [waitable_register]) *)
@@ -297,11 +340,11 @@ Definition op_start (e : env) (k : N) (w : world) : world * N * opst :=
   let d := decl e k in
   match od_kind d with
   | KSub =>
-      if od_imm d then (note T_CALL [k; 2] w, 2, mkOpst 0 0 None None false)
+      if od_imm d then (emit (VCall k 2) w, 2, mkOpst 0 0 None None false)
       else
         let st := if od_starting d then 0 else 1 in
         let (w, packed) := hostr (h_subtask_new st) w in
-        (note T_CALL [k; packed] w, st, mkOpst (packed / 16) 0 None None false)
+        (emit (VCall k packed) w, st, mkOpst (packed / 16) 0 None None false)
   | kd =>
       let ch := N.of_nat (length (chans (w_host w))) in
       let (w, wr) := hostr (h_chan_new (is_future kd)) w in
@@ -343,7 +386,7 @@ Definition op_update (e : env) (cancelling : bool) (k : N) (st : opst) (code : N
       if N.eqb code 0 then ((if o_started st then fail E_OP w else w), Some st)
       else if N.eqb code 1 then
         ((if o_started st then fail E_OP w else w), Some (mkOpst (o_w st) (o_ch st) (o_code st) (o_wk st) true))
-      else if N.eqb code 2 then (sub_handle_drop st (note T_LIFT [k] w), None)
+      else if N.eqb code 2 then (sub_handle_drop st (emit (VLift k) w), None)
       else if N.eqb code 3 then (sub_handle_drop st (if o_started st then fail E_OP w else w), None)
       else if N.eqb code 4 then (sub_handle_drop st w, None)
       else (fail E_OP w, None)
@@ -430,9 +473,11 @@ Definition mk_body (b : N) (root : bool) (e : env) : body :=
 
 Definition ctx_get_logged (w : world) : world * option N :=
   let v := h_ctx_get (w_host w) in
-  (hostf (fun h => h_emit (HCtxGet (cur_task h) (is_none v)) h) w, v).
+  (emit (VCtxGet (cur_task (w_host w)) (is_none v)) w, v).
 Definition ctx_set_logged (v : option N) (w : world) : world :=
-  hostf (fun h => h_emit (HCtxSet (cur_task h) (is_none v)) (h_ctx_set v h)) w.
+  emit (VCtxSet (cur_task (w_host w)) (is_none v)) (hostf (h_ctx_set v) w).
+Definition ctx_observe (w : world) : world :=
+  emit (VCtxObs (cur_task (w_host w)) (is_none (h_ctx_get (w_host w)))) w.
 
 (** "await operation k" as the harness writes it: poll; on completion drop the local stream end
     and note [opdone]. *)
@@ -440,36 +485,44 @@ Definition await_op_full (e : env) (t k : N) (wr : wref) (w : world) : world * b
   let (w, rdy) := op_poll e t k wr w in
   if rdy then
     let wt := match get_op k w with ODone x => x | _ => 0 end in
-    (note T_OPDONE [k] (op_end_drop e k wt w), true)
+    (emit (VOpDone k) (op_end_drop e k wt w), true)
   else (w, false).
+
+(** An operation id is used by at most one await (a second use is skipped by the driver). *)
+Definition op_fresh (e : env) (k : N) (w : world) : bool :=
+  (k <? N.of_nat (length (e_ops e))) && match get_op k w with OIdle => true | _ => false end.
 
 Fixpoint run_steps (e : env) (t : N) (bd : body) (wr : wref) (steps : list step) (w : world)
   : world * body * bool :=
   let susp c r := mkB (b_id bd) (b_root bd) c r in
   match steps with
   | [] =>
-      let w := if b_root bd && e_start e then note T_TRETURN [b_id bd] w else w in
-      let w := note T_BFIN [b_id bd] w in
-      let w := note T_BDROP [b_id bd] w in
+      let w := if b_root bd && e_start e then emit (VReturn (b_id bd)) w else w in
+      let w := emit (VFin (b_id bd)) w in
+      let w := emit (VEnd (b_id bd) true) w in
       (w, susp AwNone [], true)
   | SAwait k :: r =>
+      if negb (op_fresh e k w) then run_steps e t bd wr r w else
       let (w, rdy) := await_op_full e t k wr w in
       if rdy then run_steps e t bd wr r w else (w, susp (AwOp k) r, false)
   | SYield :: r => (wake e wr w, susp AwYield r, false)
   | SSpawn b' :: r =>
-      let w := note T_SPAWN [b'] w in
-      run_steps e t bd wr r (set_spawned (w_spawned w ++ [mk_body b' false e]) w)
+      if nmem b' (w_created w) || negb (cf_spawn (e_cfg e)) then run_steps e t bd wr r w
+      else
+        let w := emit (VSpawn b') w in
+        let w := set_created (b' :: w_created w) w in
+        run_steps e t bd wr r (set_spawned (w_spawned w ++ [mk_body b' false e]) w)
   | SFlag j :: r =>
       let (w, rdy) := flag_poll j (b_id bd) wr w in
       if rdy then run_steps e t bd wr r w else (w, susp (AwFlag j) r, false)
   | SWake j :: r =>
-      run_steps e t bd wr r (signal_flag e j (note T_WFLAG [j] w))
+      run_steps e t bd wr r (signal_flag e j (emit (VWflag j) w))
   | SJoin k j :: r =>
-      let (w, od) := await_op_full e t k wr w in
+      let (w, od) := if op_fresh e k w then await_op_full e t k wr w else (w, true) in
       let (w, fd) := flag_poll j (b_id bd) wr w in
       if od && fd then run_steps e t bd wr r w else (w, susp (AwJoin k j od fd) r, false)
   | SCtx :: r =>
-      run_steps e t bd wr r (fst (ctx_get_logged w))
+      run_steps e t bd wr r (ctx_observe w)
   end.
 
 Definition poll_body (e : env) (t : N) (bd : body) (wr : wref) (w : world) : world * body * bool :=
@@ -497,7 +550,7 @@ Definition body_drop (e : env) (t : N) (bd : body) (w : world) : world :=
            | _ => w
            end in
   let w := if b_root bd && e_start e then hostf h_task_cancel w else w in
-  note T_BDROP [b_id bd] w.
+  emit (VEnd (b_id bd) false) w.
 
 (** ** [spawn::Tasks] over FuturesUnordered *)
 Definition find_body (b : N) (l : list body) : option body := find (fun x => N.eqb (b_id x) b) l.
@@ -561,8 +614,9 @@ Fixpoint tasks_poll_spawn (fuel : nat) (e : env) (t : N) (w : world) : world * b
 Definition tasks_poll_single (e : env) (t : N) (w : world) : world * bool :=
   match tk_root (get_task t w) with
   | Some bd =>
-      let '(w, bd', rdy) := poll_body e t bd (WTask t) w in
-      if rdy then (upd_task t (tk_with_root None) w, true)
+      (* the future is taken out of its slot while it is polled (nothing looks at the slot meanwhile) *)
+      let '(w, bd', rdy) := poll_body e t bd (WTask t) (upd_task t (tk_with_root None) w) in
+      if rdy then (w, true)
       else (upd_task t (tk_with_root (Some bd')) w, false)
   | None => (w, true)
   end.
@@ -570,9 +624,9 @@ Definition tasks_poll_single (e : env) (t : N) (w : world) : world * bool :=
 Definition tasks_poll (e : env) (t : N) (w : world) : world * bool :=
   if cf_spawn (e_cfg e) then tasks_poll_spawn (e_fuel e) e t w else tasks_poll_single e t w.
 
+(** The body futures of a task (only one of the two containers is ever in use). *)
 Definition task_bodies (e : env) (tk : task) : list body :=
-  if cf_spawn (e_cfg e) then fu_all (tk_fu tk)
-  else match tk_root tk with Some b => [b] | None => [] end.
+  match tk_root tk with Some b => [b] | None => [] end ++ fu_all (tk_fu tk).
 Definition tasks_empty (e : env) (tk : task) : bool := is_nil (task_bodies e tk).
 
 (** ** inter_task_wakeup.rs / inter_task_wakeup_disabled.rs *)
@@ -727,7 +781,7 @@ Definition rt_callback (e : env) (t e0 e1 e2 : N) (w : world) : world * N :=
       let (w, c) := task_cb e t e0 e1 e2 w in
       if failed w then (w, 0) else
       let w := match c with
-               | CExit => note T_TFREE [t] (task_drop e t w)
+               | CExit => emit (VBoxFree t) (task_drop e t w)
                | _ => ctx_set_logged (Some p) w
                end in
       let w := match c with CWait s => upd_task t (tk_with_lastset (Some s)) w | _ => w end in
@@ -736,22 +790,22 @@ Definition rt_callback (e : env) (t e0 e1 e2 : N) (w : world) : world * N :=
 
 (** [start_task(root)] *)
 Definition rt_start (e : env) (t : N) (w : world) : world :=
-  let w := note T_PRESTART [t] w in
+  let w := emit (VPreStart t) w in
   let w := hostf (set_cur_task t) w in
-  let w := note T_TNEW [t] w in
+  let w := emit (VBoxNew t) w in
   let (w, v) := ctx_get_logged w in
   match v with
   | Some _ => fail E_CTX_NOTNULL w
   | None =>
-      let w := put_task t (new_task e t) w in
+      let w := set_created (root_of e t :: w_created w) (put_task t (new_task e t) w) in
       let w := ctx_set_logged (Some (t + 1)) w in
       let (w, code) := rt_callback e t 0 0 0 w in
-      if failed w then w else note T_START [t; code] w
+      if failed w then w else emit (VStart t code) w
   end.
 
 Definition do_callback (e : env) (t e0 e1 e2 : N) (w : world) : world :=
   let (w, code) := rt_callback e t e0 e1 e2 w in
-  if failed w then w else note T_CB [t; e0; e1; e2; code] w.
+  if failed w then w else emit (VCb t e0 e1 e2 code) w.
 
 (** ** Host-side progress *)
 Fixpoint seqN (n : nat) (from : N) : list N :=
@@ -801,7 +855,7 @@ Definition host_action (e : env) (a : action) (w : world) : world :=
         | KSub, Some (ESubtask 0 _ _) => hostf (h_set_event (o_w st) 1) w
         | _, _ => w
         end) w
-  | AWake j => signal_flag e j (note T_XWAKE [j] w)
+  | AWake j => signal_flag e j (emit (VXwake j) w)
   | _ => w
   end.
 
@@ -849,7 +903,7 @@ Fixpoint bon_loop (fuel : nat) (e : env) (t : N) (ev : N * N * N) (w : world) : 
       let (w, c) := task_cb e t e0 e1 e2 w in
       if failed w then w else
       match c with
-      | CExit => note T_BON [t] (task_drop e t w)
+      | CExit => emit (VBon t) (task_drop e t w)
       | CYield =>
           match tk_set (get_task t w) with
           | None => fail E_BLOCKON_YIELD w
@@ -865,7 +919,7 @@ Fixpoint bon_loop (fuel : nat) (e : env) (t : N) (ev : N * N * N) (w : world) : 
 
 Definition run_block_on (e : env) (t : N) (w : world) : world :=
   let w := hostf (set_cur_task t) w in
-  let w := put_task t (new_task e t) w in
+  let w := set_created (root_of e t :: w_created w) (put_task t (new_task e t) w) in
   bon_loop (e_fuel e) e t (0, 0, 0) w.
 
 (** ** Scenarios *)
@@ -878,7 +932,8 @@ Definition cleanup (w : world) : world :=
 (** Driver-level guards: a callback is delivered only to a task that exists, a task is started
     once ([ARaw] is unguarded: malformed stream). *)
 Definition can_start (e : env) (t : N) (w : world) : bool :=
-  (t <? N.of_nat (length (e_roots e))) && negb (tk_alive (get_task t w)) && negb (tk_exited (get_task t w)).
+  (t <? N.of_nat (length (e_roots e))) && negb (tk_alive (get_task t w)) && negb (tk_exited (get_task t w))
+  && negb (nmem (root_of e t) (w_created w)).
 
 Definition do_action (e : env) (w : world) (a : action) : world :=
   if failed w then w else
@@ -902,7 +957,7 @@ Definition do_action (e : env) (w : world) (a : action) : world :=
 
 Record scenario := mkSc { sc_env : env; sc_actions : list action }.
 
-Definition world0 : world := mkW host_init [] [] [] [] [] None [] 0 None.
+Definition world0 : world := mkW host_init [] [] [] [] [] None [] 0 None [] [].
 
 Definition run_actions (e : env) (acts : list action) (w : world) : world := fold_left (do_action e) acts w.
 
